@@ -5,7 +5,8 @@
    _complete_batch_send; OSendProduce a m pls = client.send_produce_request number a of the batch with payloads pls
    (message ids (send id, index) in order); OSched tid k kind = reactor.callLater(init * F^k). *)
 From AV Require Import Base.Util Model.Producer Proofs.ProducerBase Proofs.ProducerInv Proofs.ProducerC09 Proofs.ProducerC09b
-  Proofs.ProducerBackoffQ.
+  Proofs.ProducerC09c Proofs.ProducerBackoffQ.
+From AV Require Proofs.ProducerC01Spec.
 From Coq Require Import QArith Sorted.
 Open Scope Z_scope.
 
@@ -116,6 +117,25 @@ Theorem C09_order_step : forall c s e s' out x, Inv s -> PInv c s -> step c s e 
   Forall (fun m => low s <= fst m < low s') (msgs_first x out) /\ low s <= low s'.
 Proof. exact order_step. Qed.
 Print Assumptions C09_order_step.
+
+(* Completeness (what makes C09_order / C09_one_payload say something about what IS sent): in every honest run (every
+   result accounts for every payload of its request; building / handing over a request does not raise - see
+   Props/C01.v) every accepted send - well-formed arguments, made at any time - has fired (acknowledged, failed,
+   cancelled, refused), or still waits for its first attempt (pend s: queued, or its batch is looking up partitions /
+   the API version), or its messages were in the FIRST attempt of a batch.  C19_dispatch_iff / C19_no_starvation say
+   when the queue is flushed, so no accepted, uncancelled message is silently dropped. *)
+Theorem C09_complete : forall c has_t api0 cache0 evs s tr, ProducerC01Spec.honest evs ->
+  run c (init_state has_t api0 cache0) evs = (s, tr) ->
+  forall x, In x (ProducerC01Spec.accepted 0 evs) ->
+  In (s_id x) (ProducerC01Spec.fired tr) \/ In (s_id x) (pend s) \/ In (s_id x) (first_wire (outs_of tr)).
+Proof. exact complete_run. Qed.
+Print Assumptions C09_complete.
+(* "unresolved" in C09_serial_batches: when no batch is in flight every send still outstanding is in the queue - no send
+   of an ended batch is left waiting (honest runs). *)
+Theorem C09_idle_outstanding_queued : forall c has_t api0 cache0 evs s tr, ProducerC01Spec.honest evs ->
+  run c (init_state has_t api0 cache0) evs = (s, tr) -> ph s = Idle -> incl (outstanding s) (ids (queue s)).
+Proof. exact idle_outstanding_queued. Qed.
+Print Assumptions C09_idle_outstanding_queued.
 
 (* One payload per message per attempt: in every produce request the topic-partitions are distinct, no message
    occurs twice, each payload is made of whole sends in submission order (create_message_set keeps request order),
